@@ -30,7 +30,31 @@ def cast_like(new, old):
     return refmodel.nest({p: np.asarray(v).astype(np.asarray(fo[p]).dtype) for p, v in refmodel.flat_leaves(new).items()})
 
 
+def stored_args_check(tr, jargs, jkw, C):
+    """the updated trace records the *new* arguments (later edits and kernels re-use them)"""
+    import jax
+
+    try:
+        a = impl(tr.get_args)
+    except ImplError as e:
+        return [(f"get_args_raises:{e.sig()}:{C}", str(e))]
+    got = [np.asarray(x) for x in jax.tree_util.tree_leaves(a)]
+    want = [np.asarray(x) for x in jax.tree_util.tree_leaves((tuple(jargs), dict(jkw)))]
+    def same(g, w):
+        # a vectorized (Vmap) trace records per-lane arguments: an unmapped argument comes back broadcast over the lanes
+        try:
+            return np.array_equal(g.astype(np.float64), np.broadcast_to(w.astype(np.float64), g.shape))
+        except ValueError:
+            return False
+
+    if len(got) != len(want) or any(not same(g, w) for g, w in zip(got, want)):
+        return [(f"trace_records_stale_args:{C}", f"after update the trace's get_args() = {[g.tolist() for g in got]} but it was updated to arguments {[w.tolist() for w in want]}")]
+    return []
+
+
 def classify(case):
+    if case.get("top"):
+        return classify_top(case)
     from genjax import seed
 
     prog = case["prog"]
@@ -79,6 +103,7 @@ def classify(case):
     if np.isfinite(r1["logp"]):
         f2, _ = gfi.coherent(gf, ref, tr1, rargs1, rkw1, jargs1, jkw1, tag="update")
         fails += [(f"{b}:{C}", m) for b, m in f2]
+    fails += stored_args_check(tr1, jargs1, jkw1, C)
     f1, fn, f0 = refmodel.flat_leaves(ch1), refmodel.flat_leaves(ch_new), refmodel.flat_leaves(ch0)
     if set(f1) != set(f0):
         fails.append((f"address_set_changed:{C}", f"{sorted(set(f1) ^ set(f0))}"))
@@ -178,15 +203,167 @@ def run_shard(ctx):
                f"C03.constraints_{'some' if info.get('n_constrained') else 'none'}"] + [f"C03.prog_with_{f}" for f in sorted(fs)]
         if not info.get("finite", True):
             cls.append("C03.target_outside_support")
-        ctx.case(case, nt, cls, sample={"program": case["prog"], "args": case["args"], "new_args": case["new_args"], "constrained": case["upd_subset"], "info": info})
+        if case.get("top"):
+            cls.append(f"C03.top_level_{case['top']}")
+        ctx.case(case, nt or bool(case.get("top")), cls, sample={"program": case["prog"], "args": case.get("top_args", case["args"]), "new_args": case.get("top_new_args", case.get("new_args")),
+                                                                  "constrained": case["upd_subset"], "info": info})
         for b, w in fails:
             ctx.fail(b, w, case)
 
     n = P["n_cases"]
-    forces = ["cond", "scan", "vmap", "cond", "vdist", "call", None, "cond"]
+    drive(ctx, top_cases(), P.get("n_top", 3), one, "top")
+    forces = ["cond", "scan", "vmap", "indicator", "vdist", "call", None, "cond"]
     drive(ctx, cases(False, forces[ctx.shard % len(forces)]), n - n // 3, one, "cont")
     drive(ctx, cases(True, forces[(ctx.shard + 1) % len(forces)]), n // 3, one, "disc")
 
 
 def replay(case):
     return classify(case)[0]
+
+
+# ---------------------------------------------------------------------------------------------------------------
+# traces whose generative function is a combinator itself (Scan / Vmap / Cond at top level)
+def top_wrapper(case):
+    """-> (reference program with a synthetic main that has one combinator statement at address 't', builder of the genjax GF)"""
+    prog, top = case["prog"], case["top"]
+    st = next(s for s in prog["fns"]["main"]["body"] if s[0] == top)
+    fns = {k: v for k, v in prog["fns"].items() if k != "main"}
+    if top == "scan":
+        _, _, f, L, _, _ = st
+        main = {"np": 2, "kw": [], "body": [["scan", "t", f, L, ["p", 0], ["p", 1]]], "ret": ["sc", "t"]}
+        meta = {"f": f, "L": L}
+    elif top == "vmap":
+        _, _, f, axes, n, _ = st
+        main = {"np": len(axes), "kw": [], "body": [["vmap", "t", f, axes, n, [["p", i] for i in range(len(axes))]]], "ret": ["sum", ["v", "t"]]}
+        meta = {"f": f, "axes": axes, "n": n}
+    else:
+        ft, ff, aex = st[3:6]
+        k = len(aex)
+        main = {"np": k + 1, "kw": [], "body": [["cond", "t", ["gt", ["p", 0], 0.0], ft, ff, [["p", i + 1] for i in range(k)]]], "ret": ["v", "t"]}
+        meta = {"ft": ft, "ff": ff}
+    order = [n for n in prog["order"] if n != "main"] + ["main"]
+    return {"fns": {**fns, "main": main}, "order": order, "main": "main"}, meta
+
+
+def top_gf(rprog, meta, top):
+    import jax.numpy as jnp
+    from genjax import Cond, Scan, const
+
+    built = modelir.build(rprog, all_fns=True)
+    if top == "scan":
+        return Scan(built[meta["f"]], length=const(meta["L"])), (lambda a: (a[0], a[1]))
+    if top == "vmap":
+        axes = meta["axes"]
+        vf = built[meta["f"]].vmap(in_axes=tuple(axes), axis_size=meta["n"] if all(x is None for x in axes) else None)
+        return vf, (lambda a: tuple(a))
+    return Cond(built[meta["ft"]], built[meta["ff"]]), (lambda a: (jnp.asarray(a[0] > 0.0),) + tuple(a[1:]))
+
+
+def classify_top(case):
+    import jax.numpy as jnp
+    from genjax import seed
+
+    top = case["top"]
+    rprog, meta = top_wrapper(case)
+    F = f"top_{top}+" + feat(rprog)
+    fails, info = [], {"features": F, "top": top}
+    ref = refmodel.Ref(rprog)
+    gf, conv = impl(top_gf, rprog, meta, top)
+    a0 = {"args": case["top_args"], "kwargs": {}}
+    a1 = {"args": case["top_new_args"], "kwargs": {}}
+    rargs0, _ = gfi.ref_args(a0)
+    rargs1, _ = gfi.ref_args(a1)
+    j0 = conv([jnp.asarray(x, dtype=jnp.float32) for x in case["top_args"]])
+    j1 = conv([jnp.asarray(x, dtype=jnp.float32) for x in case["top_new_args"]])
+    rng = np.random.default_rng(case["key"])
+    wrap = lambda ch: {"t": ch}  # noqa: E731
+    try:
+        tr0 = impl(seed(gf.simulate), env.key(case["key"], 1), *j0)
+        ch0 = wrap(gfi.to_np(impl(tr0.get_choices)))
+    except ImplError as e:
+        return [(f"setup_raises:{e.sig()}|{F}", str(e))], info
+    r0 = ref.score(rargs0, {}, ch0)
+    paths = sorted(refmodel.flat_leaves(ch0))
+    S = [tuple(p) for p in case["upd_subset"] if tuple(p) in paths]
+    ch_new, _ = ref.sample(rargs1, {}, rng, given=without(ch0, set(S)))
+    ch_new = cast_like(ch_new, ch0)
+    r1 = ref.score(rargs1, {}, ch_new)
+    p0, p1 = preds_of(ref, rargs0, {}, ch0), preds_of(ref, rargs1, {}, ch_new)
+    flip = "flip" if [a for a, b in zip(p0, p1) if a[2] != b[2]] else "noflip"
+    info.update({"flip": flip, "n_constrained": len(S), "args_changed": case["top_args"] != case["top_new_args"], "finite": bool(np.isfinite(r1["logp"]))})
+    C = f"{flip}|{F}"
+    cons = modelir.to_jnp(constraint_map(ch_new, S))["t"] if S else None
+    try:
+        tr1, w, disc = impl(gf.update, tr0, cons, *j1)
+        ch1 = wrap(gfi.to_np(impl(tr1.get_choices)))
+        score1 = float(np.asarray(impl(tr1.get_score)))
+    except ImplError as e:
+        return [(f"update_raises:{e.sig()}:{C}", f"constraints {S}: {e}")], info
+    f1, fn, f0 = refmodel.flat_leaves(ch1), refmodel.flat_leaves(ch_new), refmodel.flat_leaves(ch0)
+    if top == "cond" and flip == "flip":
+        # a Cond trace updated directly with a switched condition and no enclosing function: unconstrained addresses are
+        # compared with the reference only when constrained (the hidden-branch value is not visible to the oracle)
+        pass
+    for p in paths:
+        if p in f1 and p in S and not gfi.bit_equal(f1[p], fn[p]):
+            fails.append((f"constrained_value_not_installed:{C}", f"{'/'.join(p)}"))
+            break
+        if p in f1 and p not in S and not gfi.bit_equal(f1[p], f0[p]):
+            fails.append((f"unconstrained_value_changed:{C}", f"{'/'.join(p)}: {f0[p].tolist()} -> {f1[p].tolist()}"))
+            break
+    if not fails and np.isfinite(r1["logp"]):
+        if not gfi.close(score1, -r1["logp"], r1["mag"]):
+            fails.append((f"update.score:{C}", f"score {score1} != -reference log density {-r1['logp']} under the new arguments"))
+        want = r1["logp"] - r0["logp"]
+        if not gfi.close(float(np.asarray(w)), want, r0["mag"] + r1["mag"]):
+            fails.append((f"weight:{C}", f"update weight {float(np.asarray(w))} != {want}"))
+    fails += stored_args_check(tr1, j1, {}, C)
+    if not fails and np.isfinite(r1["logp"]):
+        try:
+            tr2, w2, _ = impl(gf.update, tr1, disc, *j0)
+            f2 = refmodel.flat_leaves(wrap(gfi.to_np(tr2.get_choices())))
+            if any(not gfi.bit_equal(f2[p], f0[p]) for p in f0):
+                fails.append((f"roundtrip_choices:{C}", "update back with the discard does not restore the choices"))
+            elif not gfi.close(float(np.asarray(w2)), -(r1["logp"] - r0["logp"]), r0["mag"] + r1["mag"]):
+                fails.append((f"roundtrip_weight:{C}", f"{float(np.asarray(w2))} != {-(r1['logp'] - r0['logp'])}"))
+            fails += stored_args_check(tr2, j0, {}, C)
+        except ImplError as e:
+            fails.append((f"roundtrip_raises:{e.sig()}:{C}", str(e)))
+    return fails, info
+
+
+def top_cases():
+    from hypothesis import strategies as st
+
+    delta = st.sampled_from([0.0, 0.25, -0.5, 1.0, -1.5])
+
+    @st.composite
+    def _c(draw):
+        top = draw(st.sampled_from(["scan", "scan", "vmap", "cond"]))
+        p = draw(modelir.programs(discrete=draw(st.booleans()), force=top, kwargs=False))
+        st_ = next((s for s in p["prog"]["fns"]["main"]["body"] if s[0] == top), None)
+        if st_ is None:
+            top, p = "scan", draw(modelir.programs(force="scan", kwargs=False))
+            st_ = next(s for s in p["prog"]["fns"]["main"]["body"] if s[0] == "scan")
+        fc = lambda: round(draw(modelir.fconst), 2)  # noqa: E731
+        if top == "scan":
+            args = [fc(), [fc() for _ in range(st_[3])]]
+        elif top == "vmap":
+            args = [[fc() for _ in range(st_[4])] if ax == 0 else fc() for ax in st_[3]]
+        else:
+            args = [draw(st.sampled_from([-1.0, 1.0]))] + [fc() for _ in st_[5]]
+
+        def perturb(a):
+            return [round(x + draw(delta), 2) for x in a] if isinstance(a, list) else round(a + draw(delta), 2)
+
+        new_args = [perturb(a) for a in args]
+        if top == "cond":
+            new_args[0] = args[0]  # the top-level condition is kept (a switched top-level Cond has no visible old value)
+        case = {**p, "top": top, "top_args": args, "top_new_args": new_args, "key": draw(st.integers(0, 2**30))}
+        rprog, _ = top_wrapper(case)
+        ra, _ = gfi.ref_args({"args": args, "kwargs": {}})
+        paths = sorted(refmodel.Ref(rprog).leaf_info(ra, {}))
+        case["upd_subset"] = [list(q) for q in draw(st.lists(st.sampled_from(paths), unique=True, max_size=len(paths)))]
+        return case
+
+    return _c()
